@@ -1,6 +1,8 @@
 package main
 
 import (
+	"runtime"
+	"syscall"
 	"go/types"
 	"bytes"
 	"context"
@@ -141,8 +143,45 @@ func (o *Obligation) smt(withModel bool) string {
 	return sb.String()
 }
 
+// acquireSlot takes one of as many machine-wide slots as there are cores (advisory file locks in the
+// temporary directory), so that checks running side by side queue their solver processes instead of
+// starving each other's wall-clock limits. It gives up waiting when ctx is cancelled.
+func acquireSlot(ctx context.Context) (release func()) {
+	dir := filepath.Join(os.TempDir(), "govc-slots")
+	if err := os.MkdirAll(dir, 0o777); err != nil {
+		return func() {}
+	}
+	n := runtime.NumCPU()
+	if n < 2 {
+		n = 2
+	}
+	start := int(time.Now().UnixNano() % int64(n))
+	for {
+		for k := 0; k < n; k++ {
+			f, err := os.OpenFile(filepath.Join(dir, fmt.Sprintf("slot-%d", (start+k)%n)), os.O_CREATE|os.O_RDWR, 0o666)
+			if err != nil {
+				return func() {}
+			}
+			if syscall.Flock(int(f.Fd()), syscall.LOCK_EX|syscall.LOCK_NB) == nil {
+				return func() { syscall.Flock(int(f.Fd()), syscall.LOCK_UN); f.Close() }
+			}
+			f.Close()
+		}
+		select {
+		case <-ctx.Done():
+			return func() {}
+		case <-time.After(15 * time.Millisecond):
+		}
+	}
+}
+
 func runSolver(ctx context.Context, sp solverSpec, file string, timeoutMs int) (status, out string, ms int64) {
 	args := sp.cmd(file, timeoutMs)
+	release := acquireSlot(ctx)
+	defer release()
+	if ctx.Err() != nil {
+		return "timeout", "cancelled", 0
+	}
 	cctx, cancel := context.WithTimeout(ctx, time.Duration(timeoutMs+1500)*time.Millisecond)
 	defer cancel()
 	cmd := exec.CommandContext(cctx, args[0], args[1:]...)
@@ -174,6 +213,10 @@ func runSolver(ctx context.Context, sp solverSpec, file string, timeoutMs int) (
 	return
 }
 
+// stageScale multiplies the wall-clock limits of the cheap first attempts; the retry pass for
+// obligations left undecided (machine load) sets it to 4.
+var stageScale = 1
+
 // solve discharges one obligation: a fast first attempt with the newest z3, then a race of
 // the other solvers.
 func solve(o *Obligation, dir string, budgetMs int, portfolioAll bool) *SolveResult {
@@ -200,11 +243,15 @@ func solve(o *Obligation, dir string, budgetMs int, portfolioAll bool) *SolveRes
 			if err := os.WriteFile(sf, []byte(st), 0o644); err != nil {
 				break
 			}
-			ms0 := 600
+			ms0 := 600 * stageScale
 			if withFacts {
-				ms0 = 1500
+				ms0 = 1500 * stageScale
 			}
 			stt, out, ms := runSolver(ctx, solvers[0], sf, ms0)
+			if kd := os.Getenv("GOVC_DUMPQ"); kd != "" && strings.HasSuffix(o.Name, kd) {
+				os.WriteFile(filepath.Join("/tmp", fmt.Sprintf("dumpq-%d-%s-%d.smt2", os.Getpid(), stt, k)), []byte(st), 0o644)
+				os.WriteFile(filepath.Join("/tmp", fmt.Sprintf("dumpq-%d-full.smt2", os.Getpid())), []byte(text), 0o644)
+			}
 			if kd := os.Getenv("GOVC_KEEPSLICE"); kd != "" && stt == "unsat" && strings.Contains(o.Name, kd) {
 				os.WriteFile(filepath.Join("/tmp", fmt.Sprintf("slice-%x-%d.smt2", hashStr(o.Name), k)), []byte(st), 0o644)
 			}
@@ -226,7 +273,7 @@ func solve(o *Obligation, dir string, budgetMs int, portfolioAll bool) *SolveRes
 		qf := o.smtQF()
 		qfFile := file + ".qf.smt2"
 		if err := os.WriteFile(qfFile, []byte(qf), 0o644); err == nil {
-			st, out, ms := runSolver(ctx, solvers[0], qfFile, 1500)
+			st, out, ms := runSolver(ctx, solvers[0], qfFile, 1500*stageScale)
 			os.Remove(qfFile)
 			res.Tried = append(res.Tried, fmt.Sprintf("%s(quantifier-free prefix):%s:%dms", solvers[0].name, st, ms))
 			if st == "unsat" {
@@ -236,13 +283,13 @@ func solve(o *Obligation, dir string, budgetMs int, portfolioAll bool) *SolveRes
 		}
 	}
 	firstMs := budgetMs
-	if firstMs > 3000 {
-		firstMs = 3000
+	if firstMs > 3000*stageScale {
+		firstMs = 3000 * stageScale
 	}
-	if goalQuantified && budgetMs >= 6000 {
+	if goalQuantified && budgetMs >= 6000*stageScale {
 		// quantified goals (set inclusions over maps) need instantiation: give the first solver
 		// room before three solvers compete for the cores
-		firstMs = 6000
+		firstMs = 6000 * stageScale
 	}
 	definitive := func(s string) bool { return s == "sat" || s == "unsat" }
 	if o.Class == "smoke" && os.Getenv("GOVC_NOSLICE") == "" {
